@@ -35,16 +35,27 @@ pub fn nondet(placement: bool, tombstone: bool) {
     unsafe { table::NONDET_PLACEMENT = placement; table::NONDET_TOMBSTONE = tombstone; }
 }
 
+/// Stores `u` in a free bucket of the table and links it as the most-recently-used entry, using only the
+/// primitives of entry.rs and of the table (no private helper of LruCache), and adds its size.  This is what
+/// `insert_untracked` + the size update of `Clone::clone` do; harness state builders use it so that a
+/// refactoring of LruCache's private helpers does not stop every harness from compiling.  That the states it
+/// builds satisfy the representation invariant is itself checked (q_sub_builder).
+pub fn link_new<K: Eq + Hash, V, S: BuildHasher>(c: &mut LruCache<K, V, S>, u: UnhingedEntry<K, V>) {
+    c.current_size += u.size();
+    let h = crate::make_insert_hash::<K, S>(&c.hash_builder, u.key());
+    let e = Entry::new(u, c.seal, c.seal.get().next);
+    let b = match c.table.try_insert_no_grow(h, e) { Ok(b) => b, Err(_) => panic!("state builder: table full") };
+    let mut p = EntryPtr::new(b.as_ptr());
+    p.insert(c.seal, c.seal.get().next);
+}
+
 /// State generator from L1 primitives only (what `Clone::clone` does): no eviction loop, no growth loop.
 /// Keys 0..n inserted in that order (0 = least recently used), value size 8 + key.
 pub fn prebuilt_in<S: BuildHasher + Default>(n: u8, cap: usize) -> LruCache<u8, SV, S> {
     let mut c: LruCache<u8, SV, S> = LruCache::with_capacity_and_hasher(usize::MAX / 2, cap, S::default());
     let mut k = 0u8;
     while k < n {
-        let u = UnhingedEntry::new(k, SV(8 + k as usize));
-        c.current_size += u.size();
-        let e = Entry::new(u, c.seal, c.seal.get().next);
-        c.insert_untracked(e);
+        link_new(&mut c, UnhingedEntry::new(k, SV(8 + k as usize)));
         k += 1;
     }
     c
